@@ -178,6 +178,7 @@ type FnVC struct {
 	acOrd           map[*spec.AtCall]map[token.Pos]int
 	localRefs       []Term // refs of non-escaping local allocations
 	tiDone          map[string]bool
+	roCell          map[vkey]Val // value of single-assignment captured variables
 	epochPrev       map[int]epochOrigin
 	// preserveLocalsOnHavoc is set while a *call* is havocked (callees cannot touch non-escaping locals);
 	// it is off for loop-head havoc, where the loop body itself may write them.
